@@ -8,20 +8,21 @@ included - the exit status is half of both properties), decides for all inputs t
 of every path condition drives the real CLI through ALL pipelines: stdout (byte for byte) and success / failure must be the same.
 
 Members:
-  * programs of the other families (control flow, optionals, lists / maps, objects, closures, failing call chains), so that every
+  * programs of the other families (control flow, optionals, lists / maps, objects, closures, failing call chains, multi-module
+    projects), so that every
     opcode the emitted code uses goes through the file writer, the loader and the transpiler;
   * string programs: literals over the characters that are special to the two file formats (quote, backslash, space, tab, line feed,
     carriage return, the letters n r t, comma, `#`, non-ASCII) as printed values, comparison operands, map keys, list elements,
     concatenation operands, call arguments and assert-adjacent text, with the path through the program decided by the inputs."""
 import random
-import gen01, gen07, gen08, gen12, gen13, gen15, gen17
+import gen01, gen07, gen08, gen11, gen12, gen13, gen15, gen17
 
 I = lambda n: ("int", n)
 V = lambda x: ("var", x)
 B = lambda op, l, r: ("bin", op, l, r)
 S = lambda s: ("str", s)
 NIN = 3
-FAMS = {"gen01": gen01, "gen07": gen07, "gen08": gen08, "gen12": gen12, "gen13": gen13, "gen15": gen15, "gen17": gen17}
+FAMS = {"gen01": gen01, "gen07": gen07, "gen08": gen08, "gen12": gen12, "gen13": gen13, "gen15": gen15, "gen17": gen17, "gen11": gen11}
 
 ALPHABET = ['"', "\\", " ", "\t", "\n", "\r", "n", "r", "t", ",", "#", "é", "世", "a", ":", "'", ";", "0", "\U0001F600"]
 
@@ -72,6 +73,8 @@ def select(tier, seed):
     items += [("gen17", it) for it in i17]
     i15, _ = gen15.select(1, 3, 60 if q else 600, seed)
     items += [("gen15", it) for it in i15]
+    i11, _, _ = gen11.select("quick", seed)
+    items += [("gen11", it) for it in (i11[:40] if q else i11)]          # multi-module projects: imports always go through files
     items += [("str", rnd.randrange(1 << 30)) for _ in range(120 if q else 1200)]
     return items, None, 0
 
